@@ -125,6 +125,16 @@ def handle (req : Json) : Except String Json := do
         | .ok p => vals := vals ++ [Json.num (JsonNumber.fromNat p)]
         | .error e => return Json.mkObj [("ok", true), ("error", Json.str e)]
       pure (Json.mkObj [("ok", true), ("positions", Json.arr vals.toArray)])
+    | "mx" => do
+      let shape ← parseNats (← getObj attr "shape")
+      let r := shape.getD 0 1
+      let c := shape.getD 1 1
+      let mut vals : List Json := []
+      for idx in idxs do
+        match selMX r c idx with
+        | .ok p => vals := vals ++ [Json.num (JsonNumber.fromNat p)]
+        | .error e => return Json.mkObj [("ok", true), ("error", Json.str e)]
+      pure (Json.mkObj [("ok", true), ("positions", Json.arr vals.toArray)])
     | k => throw s!"bad-attr-kind {k}"
   | "expand.outputs" => do
     let outs ← (← getArr req "outputs").toList.mapM (·.getStr?)
